@@ -6,7 +6,7 @@ import Driver.Util
 tree in prefix notation, space separated: an identifier is an atom; `u:<op> E` unary, `p:<op> E`
 postfix, `b:<op> E E` binary, `l:<op> E E` logical, `r:<op> E E` range, `ro:<op> E` endless range,
 `as:<Const> E`.
-answer: `ok <printed text> | <tree of parse (print e)>`, `!` instead of the tree when it does not parse.
+answer: `ok <printed text> => <tree of parse (print e)>`, `!` instead of the tree when it does not parse.
 The table is `Elk.Gen.Prec.exprTable` (probed from the real code). -/
 namespace Driver.Dom.Prec
 open Elk.Prec Driver
@@ -65,7 +65,7 @@ def render : List Tok → String
   | .as :: ts => " as " ++ render ts
   | .op .inf o :: ts => " " ++ o ++ " " ++ render ts
   | .op .pre o :: .op .pre o2 :: ts =>
-    (if o.back = o2.front then o ++ " " else o) ++ render (.op .pre o2 :: ts)
+    (if o.back = o2.front || (o = "!" && o2.front = '~') then o ++ " " else o) ++ render (.op .pre o2 :: ts)
   | .op _ o :: ts => o ++ render ts
 
 def handle : List String → String
@@ -76,8 +76,8 @@ def handle : List String → String
       let T := Elk.Gen.Prec.exprTable
       let printed := print T e
       match parse T printed with
-      | some e' => s!"ok {render printed} | {showTree e'}"
-      | none => s!"ok {render printed} | !"
+      | some e' => s!"ok {render printed} => {showTree e'}"
+      | none => s!"ok {render printed} => !"
     | _ => "bad-op"
   | _ => "bad-op"
 
